@@ -107,8 +107,14 @@ func tree(c *rp.Ctx, i int, cs *amf0x.Case) rp.Result {
 		amf0x.Broken("case %d: a behaviour of the builder that is not buildable", i)
 	}
 	// the bytes alone
-	if _, f := decodedAs(i, "exact bytes", want, &cs.V, cs.Size, want, seed); f != nil {
+	dec, f := decodedAs(i, "exact bytes", want, &cs.V, cs.Size, want, seed)
+	if f != nil {
 		return *f
+	}
+	// a decoded tree is a value like any other: after growing a container BELOW the root through the public API,
+	// the root still marshals to exactly Size() bytes (no size remembered from decoding)
+	if r := editedBelowRoot(i, dec.Value, &cs.V, seed); r != nil {
+		return *r
 	}
 	// stray bytes behind the value are not its business
 	trail := amf0x.MustLD(cs.Trail, seed)
@@ -147,4 +153,52 @@ func rawCase(c *rp.Ctx, i int, cs *amf0x.Case) rp.Result {
 		return *f
 	}
 	return rp.Result{OK: true, Nontriv: true}
+}
+
+type getter interface {
+	Get(string) amf0.Amf0
+}
+
+// editedBelowRoot grows the first nested container of a decoded tree and compares Size() with the marshalled length
+// on the root and on the edited container.
+func editedBelowRoot(i int, root amf0.Amf0, n *amf0x.Node, seed int) *rp.Result {
+	g, ok := root.(getter)
+	if !ok {
+		return nil
+	}
+	seen := map[string]bool{}
+	for _, p := range n.P {
+		key := amf0x.Text(p.K, seed)
+		if seen[key] {
+			continue // a repeated name: Get finds the first one only
+		}
+		seen[key] = true
+		if p.V.T != "obj" && p.V.T != "ecma" && p.V.T != "strictk" {
+			continue
+		}
+		child := g.Get(key)
+		switch c := child.(type) {
+		case *amf0.Object:
+			c.Set("grown-after-decoding", amf0.NewString("0123456789abcdef"))
+		case *amf0.EcmaArray:
+			c.Set("grown-after-decoding", amf0.NewString("0123456789abcdef"))
+		case *amf0.StrictArray:
+			c.Set("grown-after-decoding", amf0.NewString("0123456789abcdef"))
+		default:
+			return nil
+		}
+		for who, v := range map[string]amf0.Amf0{"the root": root, "the edited container": child} {
+			b, err := v.MarshalBinary()
+			if err != nil {
+				r := rp.Fail(i, "after growing a nested container of a decoded tree, marshalling %s failed: %v", who, err)
+				return &r
+			}
+			if v.Size() != len(b) {
+				r := rp.Fail(i, "after growing a nested container of a decoded tree, %s marshals to %d bytes but Size() = %d", who, len(b), v.Size())
+				return &r
+			}
+		}
+		return nil
+	}
+	return nil
 }
